@@ -11,7 +11,6 @@ use std::path::Path;
 
 use crate::errors::GeneratorOrIOError;
 use crate::generate::Generator;
-use crate::macros::{invariant, optionally_unsafe};
 use crate::params::ConstrainedFuzzyHashType;
 use crate::{GeneratorType, Tlsh};
 
@@ -55,9 +54,9 @@ fn hash_stream_common<R: Read, G: GeneratorType>(
         if len == 0 {
             break;
         }
-        optionally_unsafe! {
-            invariant!(len <= buffer.len());
-        }
+        // Note: `len <= buffer.len()` is NOT an invariant we may hand to the
+        // optimizer: `Read` is a safe trait and a misbehaving implementation
+        // may return any length.  The slice indexing below checks it.
         generator.update(&buffer[0..len]);
     }
     Ok(generator.finalize()?)
